@@ -346,7 +346,12 @@ int reformat_settings_msa(struct msa *msa, int rename, int unalign)
 {
         if(rename){
                 for (int i = 0 ;i < msa->numseq;i++){
-                        snprintf(msa->sequences[i]->name, 128, "SEQ%d", i+1);
+                        /* names read from FASTA files are allocated to the length of the header */
+                        char* tmp = NULL;
+                        MMALLOC(tmp, sizeof(char) * MSA_NAME_LEN);
+                        snprintf(tmp, MSA_NAME_LEN, "SEQ%d", i+1);
+                        MFREE(msa->sequences[i]->name);
+                        msa->sequences[i]->name = tmp;
                 }
         }
         if(unalign){
